@@ -27,6 +27,8 @@ Inductive case :=
     (* RepetitionCodeDescription.from_connectivity(involved, <layout name>()) *)
 | CComposite (name : string) (involved : list string) (lead_readout lead_gate : option (list string))
              (excl_e : list edge) (excl_q : list string) (only_required : bool) (index : list (string * Z)) (o : obs)
+             (base_unchanged : bool)   (* the base description (and a second composite on it) report the same before and after
+                                          the composite's gate_sequences were read, and reading twice gives the same *)
     (* CompositeRepetitionCodeDescription(base = from_connectivity(involved), leading descriptions from_connectivity(..),
        exclusions, _only_required_parking_operations, _qubit_index_map = index) *)
 | CError.
@@ -92,7 +94,7 @@ Definition agree (c : case) : bool :=
                   obs_eqb (obs_of (d_qubits d) (d_data d) (d_ancilla d) (d_layers d) (d_index d)) o
       | None => false
       end
-  | CComposite name involved lr lg excl_e excl_q only index o =>
+  | CComposite name involved lr lg excl_e excl_q only index o _ =>
       match find_layout name with
       | Some L => let c := composite_of L involved lr lg excl_e excl_q only index in
                   obs_eqb (obs_of (c_qubits c) (d_data (c_base c)) (d_ancilla (c_base c)) (c_layers c) (c_index c)) o
@@ -161,9 +163,10 @@ Definition spec_ok (c : case) : bool :=
           && s_index_ok o
       | None => false
       end
-  | CComposite name involved lr lg excl_e excl_q only index o =>
+  | CComposite name involved lr lg excl_e excl_q only index o unchanged =>
       match find_layout name with
       | Some L =>
+          unchanged &&
           let gate_involved := match lg with Some i => i | None => involved end in
           s_gates_eqb (map layer_gates (o_layers o))
                       (map (fun l => filter (fun e => s_both gate_involved e && negb (s_excluded excl_e excl_q e)) (layer_gates l))
